@@ -121,6 +121,7 @@ type world struct {
 	depth        int
 	propOverride string
 	sawLI        bool
+	seenImages   map[uint64]bool
 }
 
 type ioErrPlan struct {
@@ -195,7 +196,7 @@ func (w *world) instrument(r *replica, fs *crashfs.FS) {
 		// The durable view was constant since the previous sync: finalise the
 		// pending image with the tightest lower bound of its window.
 		w.finalise(r)
-		r.pending = &pendingImage{img: f.CaptureLocked(), upper: r.startedIdx.Load(), step: r.curStep, mid: r.inStep.Load(), during: r.during}
+		r.pending = &pendingImage{img: f.CaptureLocked(), upper: r.startedIdx.Load(), step: r.curStep, mid: true, during: r.during}
 	}
 }
 
@@ -927,6 +928,14 @@ func (w *world) rep(i int) *replica {
 }
 
 func (w *world) execStep(st *Step) {
+	defer func() {
+		// the image pending at the end of a step is the quiescent state after it, not a mid-operation one
+		for _, r := range w.reps {
+			if r.pending != nil {
+				r.pending.mid = false
+			}
+		}
+	}()
 	r := w.rep(st.R)
 	r.curStep = w.step
 	switch st.Op {
